@@ -148,6 +148,20 @@ func VerifH_hpke_keyschedule() {
 	got, err := d.Decrypt(ct, info)
 	verifrt.Assert(err == nil, "Decrypt of own ciphertext succeeds")
 	verifrt.AssertEq(got, pt, "round trip")
+	// Decrypt only reads the caller's ciphertext: the buffer is intact afterwards, so that a
+	// failed attempt (another candidate key of a keyset, another context info) followed by the
+	// right one, or a second decryption, still works.
+	verifrt.AssertEq(ct, want, "Decrypt leaves the caller's ciphertext buffer intact")
+	info2 := verifrt.Bytes("info2", len(info))
+	verifrt.Assume(len(info) == 0 || !verifrt.EqBytes(info2, info))
+	if len(info) > 0 {
+		_, err = d.Decrypt(ct, info2)
+		verifrt.Observe("otherinfo-rejected", err != nil)
+		verifrt.AssertEq(ct, want, "a failed Decrypt leaves the caller's ciphertext buffer intact")
+	}
+	got2, err := d.Decrypt(ct, info)
+	verifrt.Assert(err == nil, "a second Decrypt of the same buffer succeeds")
+	verifrt.AssertEq(got2, pt, "a second Decrypt of the same buffer gives the same plaintext")
 	short, err := d.Decrypt(ct[:verifrt.Choice("cut", s.nenc)], info)
 	verifrt.Assert(err != nil && short == nil, "ciphertext shorter than Nenc rejected, no panic")
 	verifrt.Reach("end")
